@@ -43,13 +43,14 @@ impl Instant {
   pub fn checked_add(&self, d: Duration) -> Option<Instant> {
     match self.0 {
       I::Real(a) => a.checked_add(d).map(|x| Instant(I::Real(x))),
-      I::Virt(a) => a.checked_add(d.as_nanos() as u64).map(|x| Instant(I::Virt(x))),
+      // (virtual time is u64 nanoseconds: a duration that does not fit overflows, as it does for std's Instant)
+      I::Virt(a) => u64::try_from(d.as_nanos()).ok().and_then(|n| a.checked_add(n)).map(|x| Instant(I::Virt(x))),
     }
   }
   pub fn checked_sub(&self, d: Duration) -> Option<Instant> {
     match self.0 {
       I::Real(a) => a.checked_sub(d).map(|x| Instant(I::Real(x))),
-      I::Virt(a) => a.checked_sub(d.as_nanos() as u64).map(|x| Instant(I::Virt(x))),
+      I::Virt(a) => u64::try_from(d.as_nanos()).ok().and_then(|n| a.checked_sub(n)).map(|x| Instant(I::Virt(x))),
     }
   }
 }
